@@ -173,11 +173,20 @@ func c01pModelSegs(c *core.Ctx, k c01pCase, sess int, c2s bool, name string, dat
 			emit()
 		}
 	}
-	if !respSeen {
+	switch {
+	case !respSeen && closeReq:
+		// the application wrote and closed before the session's input loop had processed the open request:
+		// the open-session response was never numbered (the model's accept on a closed session emits nothing).
+		// No byte is affected; seen as a false alarm on the unchanged tree before this case was distinguished.
+		ops = append(ops, "x", "a")
+		c.Hist("program_open_response_position", "never-sent-closed-first")
+	case !respSeen:
 		ops = append(ops, "a")
-	}
-	if closeReq {
+	case closeReq:
 		ops = append(ops, "x")
+	}
+	if respSeen && !closeReq {
+		// nothing to add
 	}
 	c.Hist("program_open_response_position", fmt.Sprintf("after-%s-chunks", core.SizeBucket(func() int {
 		n := 0
